@@ -55,3 +55,136 @@ Section Esc.
   Lemma escape_plain_key s : plain_key (escape s).
   Proof. split; [apply escape_plain_str|apply escape_not_directive_key]. Qed.
 End Esc.
+
+(* ---- doubling every dollar in a whole tree ---- *)
+Fixpoint esc (v : value) : value :=
+  match v with
+  | VStr s => VStr (escape s)
+  | VList l => VList ((fix go (l : list value) := match l with [] => [] | x :: r => esc x :: go r end) l)
+  | VMap m => VMap ((fix go (m : emap) := match m with [] => [] | (k, x) :: r => (escape k, esc x) :: go r end) m)
+  | _ => v
+  end.
+Fixpoint esc_list (l : list value) : list value := match l with [] => [] | x :: r => esc x :: esc_list r end.
+Fixpoint esc_map (m : emap) : emap := match m with [] => [] | (k, x) :: r => (escape k, esc x) :: esc_map r end.
+Lemma esc_VList l : esc (VList l) = VList (esc_list l). Proof. reflexivity. Qed.
+Lemma esc_VMap m : esc (VMap m) = VMap (esc_map m). Proof. reflexivity. Qed.
+
+(* every map of the tree is strictly sorted, before and after escaping (escaping is monotone on byte
+   strings; this is stated per input rather than proved, and is checked by the driver's wf test) *)
+Fixpoint sorted_both (v : value) : Prop :=
+  match v with
+  | VList l => (fix go (l : list value) := match l with [] => True | x :: r => sorted_both x /\ go r end) l
+  | VMap m => ssorted m /\ ssorted (esc_map m) /\
+              (fix go (m : emap) := match m with [] => True | (_, x) :: r => sorted_both x /\ go r end) m
+  | _ => True
+  end.
+Fixpoint sb_list (l : list value) : Prop := match l with [] => True | x :: r => sorted_both x /\ sb_list r end.
+Fixpoint sb_map (m : emap) : Prop := match m with [] => True | (_, x) :: r => sorted_both x /\ sb_map r end.
+Lemma sorted_both_VList l : sorted_both (VList l) = sb_list l. Proof. reflexivity. Qed.
+Lemma sorted_both_VMap m : sorted_both (VMap m) = (ssorted m /\ ssorted (esc_map m) /\ sb_map m). Proof. reflexivity. Qed.
+
+Section EscTree.
+  Variable o : oracles.
+
+  Lemma esc_plain v : sorted_both v -> plain (esc v).
+  Proof.
+    induction v as [| | |g|s|l IH|m IH] using value_ind'; intro H; try exact Logic.I.
+    - apply escape_plain_str.
+    - rewrite esc_VList. apply plain_VList. rewrite sorted_both_VList in H.
+      induction IH as [|x r Hx _ IHr]; [exact Logic.I|]. cbn [sb_list] in H. destruct H as [H1 H2].
+      cbn [esc_list plain_list]. split; [now apply Hx|now apply IHr].
+    - rewrite esc_VMap. apply plain_VMap. rewrite sorted_both_VMap in H. destruct H as (_ & Hs & H). split; [exact Hs|]. clear Hs.
+      induction IH as [|[k x] r Hx _ IHr]; [exact Logic.I|]. cbn [snd] in Hx. cbn [sb_map] in H. destruct H as [H1 H2].
+      cbn [esc_map plain_map]. split; [apply escape_plain_key|]. split; [now apply Hx|now apply IHr].
+  Qed.
+
+  Lemma esc_valid v : validate_go o (esc v) = None.
+  Proof.
+    induction v as [| | |g|s|l IH|m IH] using value_ind'; try reflexivity.
+    - apply escape_valid.
+    - rewrite esc_VList. cbn [validate_go]. induction IH as [|x r Hx _ IHr]; [reflexivity|].
+      cbn [esc_list]. rewrite Hx. cbn [join_err]. exact IHr.
+    - rewrite esc_VMap. cbn [validate_go]. induction IH as [|[k x] r Hx _ IHr]; [reflexivity|]. cbn [snd] in Hx.
+      cbn [esc_map]. rewrite escape_valid, Hx. cbn [join_err]. exact IHr.
+  Qed.
+
+  Lemma esc_null_iff v : esc v = VNull <-> v = VNull.
+  Proof. destruct v; cbn; split; intro H; try discriminate; reflexivity. Qed.
+
+  Lemma dn_esc v : dn (esc v) = esc (dn v).
+  Proof.
+    induction v as [| | |g|s|l IH|m IH] using value_ind'; try reflexivity.
+    - rewrite esc_VList, !dn_VList, esc_VList. f_equal.
+      induction IH as [|x r Hx _ IHr]; [reflexivity|]. cbn [esc_list].
+      destruct (value_eq_null x) as [->|Hn]; [exact IHr|].
+      assert (E1 : dn_list (esc x :: esc_list r) = dn (esc x) :: dn_list (esc_list r)).
+      { destruct x; try reflexivity; congruence. }
+      assert (E2 : dn_list (x :: r) = dn x :: dn_list r) by (destruct x; try reflexivity; congruence).
+      rewrite E1, E2. cbn [esc_list]. now rewrite Hx, IHr.
+    - rewrite esc_VMap, !dn_VMap, esc_VMap. f_equal.
+      induction IH as [|[k x] r Hx _ IHr]; [reflexivity|]. cbn [snd] in Hx. cbn [esc_map].
+      destruct (value_eq_null x) as [->|Hn]; [exact IHr|].
+      assert (E1 : dn_map ((escape k, esc x) :: esc_map r) = (escape k, dn (esc x)) :: dn_map (esc_map r)).
+      { destruct x; try reflexivity; congruence. }
+      assert (E2 : dn_map ((k, x) :: r) = (k, dn x) :: dn_map r) by (destruct x; try reflexivity; congruence).
+      rewrite E1, E2. cbn [esc_map]. now rewrite Hx, IHr.
+  Qed.
+
+  Lemma finalize_esc v : sorted_both v -> finalize (esc v) = v.
+  Proof.
+    induction v as [| | |g|s|l IH|m IH] using value_ind'; intro H; try reflexivity.
+    - cbn [esc finalize]. now rewrite unescape_escape.
+    - rewrite esc_VList. cbn [finalize]. f_equal. rewrite sorted_both_VList in H.
+      induction IH as [|x r Hx _ IHr]; [reflexivity|]. cbn [sb_list] in H. destruct H as [H1 H2].
+      cbn [esc_list]. rewrite (Hx H1). f_equal. exact (IHr H2).
+    - rewrite esc_VMap. cbn [finalize]. f_equal. rewrite sorted_both_VMap in H. destruct H as (Hs & _ & H).
+      match goal with |- ?f (esc_map m) [] = _ =>
+        assert (E : forall m' acc, Forall (fun kv => sorted_both (snd kv) -> finalize (esc (snd kv)) = snd kv) m' -> sb_map m' ->
+                      f (esc_map m') acc = fold_left (fun a kv => insert (fst kv) (snd kv) a) m' acc) end.
+      { induction m' as [|[k x] r IHr]; intros acc Hall Hsb; [reflexivity|]. inversion Hall as [|? ? Hx Hr]; subst. cbn [snd] in Hx.
+        cbn [sb_map] in Hsb. destruct Hsb as [H1 H2]. cbn [esc_map].
+        match goal with |- ?L = _ => let L' := eval cbv beta iota zeta fix in L in change L with L' end.
+        rewrite unescape_escape, (Hx H1). cbn [fold_left fst snd]. now apply IHr. }
+      rewrite (E m [] IH H). now rewrite (fold_insert_sorted m [] Hs) by constructor.
+  Qed.
+
+  Lemma dn_sorted_both v : sorted_both v -> sorted_both (dn v).
+  Proof.
+    induction v as [| | |g|s|l IH|m IH] using value_ind'; try exact id.
+    - rewrite dn_VList, !sorted_both_VList. induction IH as [|x r Hx _ IHr]; [exact id|]. cbn [sb_list]. intros [H1 H2].
+      destruct (value_eq_null x) as [->|Hn]; [now apply IHr|].
+      assert (E : dn_list (x :: r) = dn x :: dn_list r) by (destruct x; try reflexivity; congruence).
+      rewrite E. cbn [sb_list]. auto.
+    - rewrite dn_VMap, !sorted_both_VMap. intros (Hs & Hes & H). split; [now apply dn_map_ssorted|]. split.
+      + (* escaping then dropping nulls = dropping nulls then escaping *)
+        assert (C : esc_map (dn_map m) = dn_map (esc_map m)).
+        { clear. induction m as [|[k x] r IHr]; [reflexivity|].
+          destruct (value_eq_null x) as [->|Hn]; [exact IHr|].
+          assert (E1 : dn_map ((k, x) :: r) = (k, dn x) :: dn_map r) by (destruct x; try reflexivity; congruence).
+          assert (E2 : dn_map (esc_map ((k, x) :: r)) = (escape k, dn (esc x)) :: dn_map (esc_map r)).
+          { cbn [esc_map]. destruct x; try reflexivity; congruence. }
+          rewrite E1, E2. cbn [esc_map]. now rewrite IHr, dn_esc. }
+        rewrite C. now apply dn_map_ssorted.
+      + clear Hs Hes. induction IH as [|[k x] r Hx _ IHr]; [exact Logic.I|]. cbn [snd] in Hx. cbn [sb_map] in H. destruct H as [H1 H2].
+        destruct (value_eq_null x) as [->|Hn]; [now apply IHr|].
+        assert (E : dn_map ((k, x) :: r) = (k, dn x) :: dn_map r) by (destruct x; try reflexivity; congruence).
+        rewrite E. cbn [sb_map]. auto.
+  Qed.
+
+  Lemma height_esc v : height (esc v) = height v.
+  Proof.
+    induction v as [| | |g|s|l IH|m IH] using value_ind'; try reflexivity.
+    - rewrite esc_VList, !height_VList. do 2 f_equal. induction IH as [|x r Hx _ IHr]; [reflexivity|]. cbn [esc_list height_list]. now rewrite Hx, IHr.
+    - rewrite esc_VMap, !height_VMap. do 2 f_equal. induction IH as [|[k x] r Hx _ IHr]; [reflexivity|]. cbn [snd] in Hx. cbn [esc_map height_map]. now rewrite Hx, IHr.
+  Qed.
+
+  (* doubling every $ in arbitrary data yields a document that evaluates to exactly the original data *)
+  Theorem eval_escaped v : sorted_both v -> height v <= depth_limit ->
+    eval_docs o [esc v] = Ok (match v with VNull => [] | _ => [dn v] end).
+  Proof.
+    intros Hs Hh. rewrite (eval_inert o (esc v) (esc_plain v Hs)) by (now rewrite height_esc).
+    destruct (value_eq_null v) as [->|Hn]; [reflexivity|].
+    rewrite dn_esc, esc_valid, (finalize_esc (dn v) (dn_sorted_both v Hs)).
+    destruct v; try reflexivity; congruence.
+  Qed.
+End EscTree.
